@@ -139,12 +139,19 @@ def reference(D: bytes, term: str):
     if i < 0:
         if len(D) > CAP:
             return ("exc",)
+        if len(D) > 1029 and term == "stall":
+            # no header can be this long (2 + 1 + 1024 + 2 bytes): a client may give up now or wait for the end
+            return ("grey", "no-crlf-within-the-longest-possible-header")
         return ("pending",) if term == "stall" else ("exc",)
     try:
         line = D[:i].decode("utf-8")
     except UnicodeDecodeError:
         return ("exc",)
     tok, _, meta = line.partition(" ")
+    if len(meta.encode("utf-8")) > 1024 and re.fullmatch(r"[1-6][0-9]", tok):
+        # a meta beyond the protocol's 1024 bytes: relayed faithfully or reported as a malformed header, both name what
+        # the server sent
+        return ("grey", "meta-over-1024-bytes")
     if not re.fullmatch(r"[1-6][0-9]", tok):
         lenient = False
         try:
